@@ -166,6 +166,42 @@ def r4_reducer_covers_kinds(ctx):
         r.violation(f.root + "|missing", cfg.loc(b, es.block), "no arm for %s" % missing, work=1)
 
 
+def r6_until_commit_after_each_event(ctx):
+    ws = ctx.ws
+    r = ctx.rule("C02-R6", "replay up to a commit: the cut-off is tested after every consumed event, including the first",
+                 floor=2, kind="K2 must-pass-through")
+    f = ws.fn("sos_reducers::folder::FolderReducer::reduce")
+    if not f:
+        r.anchor_missing("FolderReducer::reduce")
+        return
+    body = cfg.code_body(ws, f)
+    live = cfg.live_blocks(body)
+    nexts = [i for i, t in idioms.real_calls(body, live) if cname(t) in ("next", "try_next")]
+    # blocks that read the until_commit field
+    checks = set()
+    for j in sorted(live):
+        for st in body.blocks[j]["s"]:
+            for p in [st.get("p")] + [cfg.op_place(o) for o in st.get("ops", [])]:
+                if p and "until_commit" in cfg.place_fields(p):
+                    checks.add(j)
+    if not checks:
+        r.violation(f.root + "|uses-until", cfg.loc(body), "reduce never consults until_commit: replay to an earlier commit returns the whole log", work=len(live))
+        return
+    if len(nexts) < 2:
+        r.note("only %d stream.next() site(s)" % len(nexts))
+    for idx, nb in enumerate(nexts):
+        # from a consumed event (Some arm) every path to the next consumption passes a check
+        start, _ = idioms.success_start(body, nb)
+        others = [x for x in nexts]
+        bad = cfg.find_path(body, cfg.succs(body)[nb], others, cut_blocks=checks)
+        k = "%s|next#%d" % (f.root, idx)
+        # a path that goes straight to the loop exit (None) without consuming is fine: only paths reaching another `next`
+        if bad and len(bad) > 1:
+            r.violation(k, cfg.loc(body, nb), "after consuming an event the reducer can fetch the next one without testing the until_commit cut-off: replay up to that commit overshoots", work=len(live), witness=cfg.path_lines(body, bad))
+        else:
+            r.ok(k, cfg.loc(body, nb), "cut-off tested before the next event is fetched", work=len(live))
+
+
 def r5_update_vault(ctx):
     ws = ctx.ws
     r = ctx.rule("C02-R5", "rewriting a folder keeps vault and log together",
@@ -191,3 +227,4 @@ def run(ctx):
     r3_force_merge_sequence(ctx)
     r4_reducer_covers_kinds(ctx)
     r5_update_vault(ctx)
+    r6_until_commit_after_each_event(ctx)
